@@ -893,6 +893,8 @@ THRESH = Family(
     {
         'rank_filter': Prim('rank_filter', ['fld', 'se', 'int'], 'fld'),
         '.sum()': Prim('se_sum', ['se'], 'int', doc='number of non-zero entries of a 0/1 structuring element'),
+        'circle_se': Prim('circle_se', ['K'], 'se', doc='`mahotas.morph.circle_se(radius)`'),
+        'gbernsen': Prim('gbernsen', ['fld', 'se', 'K', 'K'], 'bfld', doc='instantiated with the generated `thresholding_gbernsen`'),
     }, extra_params=EMBED, prop='C16')
 
 LAPL = Family(
@@ -972,6 +974,7 @@ TARGETS = [
            [('array', 'arr'), ('sigma', 'K'), ('axis', 'int'), ('order', 'nat'), ('mode', 'mode'), ('cval', 'K')], 'arr', CONV),
     # arrays are seen pointwise (`fld` = position -> value): the numpy operators and np.choose act element by element
     Target('thresholding.py', 'gbernsen', [('f', 'fld'), ('se', 'se'), ('contrast_threshold', 'K'), ('gthresh', 'K')], 'bfld', THRESH),
+    Target('thresholding.py', 'bernsen', [('f', 'fld'), ('radius', 'K'), ('contrast_threshold', 'K'), ('gthresh', 'optK')], 'bfld', THRESH),
     Target('thresholding.py', 'otsu', [('img', 'pimg'), ('ignore_zeros', 'bool')], 'nat', HISTO),
     Target('convolve.py', 'laplacian_2D', [('array', 'arr'), ('alpha', 'K')], 'arr', LAPL),
     # fuels: both `while` loops run at most N = hist.size times (maxt walks down from N-1, t walks up to at most maxt)
